@@ -352,7 +352,7 @@ func oracleC14(scn c14Scenario, rec *c14Rec) mc.Result {
 					map[string]interface{}{"run": k, "resume": rr.Offset, "unit_end": u.End, "unit": u.Sym, "history": rec.describe()})
 			}
 		}
-		if mode == "sync" {
+		if mode == "sync" || mode == "cluster-sync" {
 			var last int64 = aofS0
 			for ui, u := range units {
 				if committedBefore(ui, rr.BootEnd) && u.End > last {
@@ -360,7 +360,7 @@ func oracleC14(scn c14Scenario, rec *c14Rec) mc.Result {
 				}
 			}
 			if rr.Offset < last {
-				return mc.Violation("sync mode resumed before the last committed unit (it would be applied twice)", "C14:repeat:sync",
+				return mc.Violation("sync mode resumed before the last committed unit (it would be applied twice)", "C14:repeat:"+mode,
 					map[string]interface{}{"run": k, "resume": rr.Offset, "last_committed_end": last, "history": rec.describe()})
 			}
 		}
@@ -374,10 +374,10 @@ func oracleC14(scn c14Scenario, rec *c14Rec) mc.Result {
 		}
 		prev, prevRun = rr.Offset, k
 	}
-	if mode == "sync" {
+	if mode == "sync" || mode == "cluster-sync" {
 		for ui, n := range commitCount {
 			if n > 1 {
-				return mc.Violation("sync mode committed a unit twice", "C14:repeat:sync", map[string]interface{}{"unit": units[ui].Sym, "times": n, "history": rec.describe()})
+				return mc.Violation("sync mode committed a unit twice", "C14:repeat:"+mode, map[string]interface{}{"unit": units[ui].Sym, "times": n, "history": rec.describe()})
 			}
 		}
 	}
@@ -420,7 +420,7 @@ func runC14(t *testing.T, rep *mc.Reporter) {
 	} else if rp != nil {
 		var cs c14cScenario
 		if err := json.Unmarshal(rp.Scenario, &cs); err == nil && cs.Cluster {
-			view := c14Scenario{Cfg: biCfg{"cluster-parallel", 2}, MaxCrashes: cs.MaxCrashes, Idle: cs.Idle}
+			view := c14Scenario{Cfg: biCfg{"cluster-" + cs.Cfg.Mode, 2}, MaxCrashes: cs.MaxCrashes, Idle: cs.Idle}
 			for _, l := range cs.Lanes {
 				view.Syms = append(view.Syms, fmt.Sprintf("lane%d", l))
 			}
@@ -473,30 +473,40 @@ func runC14(t *testing.T, rep *mc.Reporter) {
 		lanes []int
 		soft  bool
 		bound int
+		mode  string
+		pre   []int
 	}
 	var cplans []cplan
 	for _, ls := range laneSeqs {
-		cplans = append(cplans, cplan{ls, false, cbound})
+		cplans = append(cplans, cplan{lanes: ls, bound: cbound, mode: "parallel"})
+	}
+	// sync mode on the cluster, also as the second life of a namespace: three units on one slot,
+	// a full resync under the same run id, then fewer units on another slot
+	cplans = append(cplans, cplan{lanes: []int{1, 0}, bound: 0, mode: "sync"}, cplan{lanes: []int{1, 1}, bound: 0, mode: "sync", pre: []int{0, 0, 0}})
+	if tier == "thorough" {
+		cplans = append(cplans, cplan{lanes: []int{1, 0, 1}, bound: 1, mode: "sync"}, cplan{lanes: []int{1, 0}, bound: 1, mode: "sync", pre: []int{0, 0, 0}},
+			cplan{lanes: []int{1, 0}, bound: 1, mode: "parallel", pre: []int{0, 1, 0}})
 	}
 	// in-process restarts (same RedisOutput): stop by lost connections, then StartPoint + Send again
-	cplans = append(cplans, cplan{[]int{1, 0}, true, 2})
+	cplans = append(cplans, cplan{lanes: []int{1, 0}, soft: true, bound: 2, mode: "parallel"})
 	if tier == "thorough" {
-		cplans = append(cplans, cplan{[]int{1, 0, 1}, true, 2}, cplan{[]int{0, 1, 0}, true, 2})
+		cplans = append(cplans, cplan{lanes: []int{1, 0, 1}, soft: true, bound: 2, mode: "parallel"}, cplan{lanes: []int{0, 1, 0}, soft: true, bound: 2, mode: "parallel"})
 	}
 	for _, cp := range cplans {
-		idx++
-		if idx%nshards != shard || budget.Expired() {
+		// one execution costs about half a second (every start scans the 16384 slots): all shards
+		// share each of these scenarios, divided at the root of its execution tree
+		if budget.Expired() {
 			continue
 		}
-		cscn := c14cScenario{Lanes: cp.lanes, Cfg: biCfg{"parallel", 2}, MaxCrashes: ccrashes, Idle: 1, Cluster: true, Soft: cp.soft}
+		cscn := c14cScenario{Lanes: cp.lanes, Cfg: biCfg{cp.mode, 2}, MaxCrashes: ccrashes, Idle: 1, Cluster: true, Soft: cp.soft, Pre: cp.pre}
 		if cp.soft {
 			cscn.MaxCrashes, cscn.Idle = 0, 0
 		}
-		view := c14Scenario{Cfg: biCfg{"cluster-parallel", 2}, MaxCrashes: cscn.MaxCrashes, Idle: cscn.Idle}
+		view := c14Scenario{Cfg: biCfg{"cluster-" + cp.mode, 2}, MaxCrashes: cscn.MaxCrashes, Idle: cscn.Idle}
 		for _, l := range cp.lanes {
 			view.Syms = append(view.Syms, fmt.Sprintf("lane%d", l))
 		}
-		mc.RunScenario(rep, cscn, cp.bound, budget, func(ch *mc.Chooser) mc.Result {
+		mc.RunScenarioSplit(rep, cscn, cp.bound, budget, shard, nshards, func(ch *mc.Chooser) mc.Result {
 			rec, mach := c14cExec(t, cscn, ch)
 			if mach != "" {
 				return mc.Result{Verdict: "machinery", Clause: mach}
